@@ -16,11 +16,15 @@ Variants == << [tail |-> TRUE, detect |-> TRUE], [tail |-> FALSE, detect |-> TRU
 StreamOf(t) == SubSeq(WriterBytes(t.e, t.bom, t.cps), 1, t.keep)
 PayloadAs(stream, utf) == IF StartsWith(stream, Bom(utf)) THEN SubSeq(stream, Len(Bom(utf)) + 1, Len(stream)) ELSE stream
 
+\* the configured error mark of a run (the reader must use it mid-stream and at the end of the stream alike)
+MarkOf(mk, tw) == IF mk = "def" THEN DefaultMark(tw) ELSE IF mk = "cust" THEN EncodeCps(tw, <<60, 63, 62>>)
+                  ELSE IF mk = "fffd" THEN EncodeCps(tw, <<\hFFFD>>) ELSE <<>>
+
 \* M replay of the logged calls: index of the first call that differs (0: all agree)
 RECURSIVE Replay(_, _, _, _, _)
 Replay(m, r, fix, j, n) ==
   IF j > n THEN 0
-  ELSE LET s == MReadChunk(m, r.tw, r.skip, DefaultMark(r.tw), fix)  c == r.calls[j] IN
+  ELSE LET s == MReadChunk(m, r.tw, r.skip, MarkOf(r.mk, r.tw), fix)  c == r.calls[j] IN
        IF s.res # c[1] \/ s.m.start # c[2] \/ s.m.end # c[3] THEN j ELSE Replay(s.m, r, fix, j + 1, n)
 
 MMatches(stream, t, r, fix) ==
@@ -69,7 +73,7 @@ RunVerdict(t, r, info) ==
                      ELSE IF MDetect(info.head, FALSE).utf = r.utf /\ MDetect(info.head, TRUE).utf = t.e THEN "Dev_DetectEncodingLastUnitIgnored"
                      ELSE ""]
        ELSE [ok |-> TRUE, why |-> "", dev |-> ""]      \* outside the property's domain (no BOM and first character not ASCII / cut / ambiguous)
-  ELSE IF ~StreamAccepts(r.utf, info.payload, r.tw, r.skip, DefaultMark(r.tw), r.out, r.final)
+  ELSE IF ~StreamAccepts(r.utf, info.payload, r.tw, r.skip, MarkOf(r.mk, r.tw), r.out, r.final)
   THEN [ok |-> FALSE, why |-> "concatenated output is not a decoding of the stream under the policy", dev |-> ""]
   ELSE IF info.comparable /\ FirstVariant(stream, t, r, 1) = 0
   THEN [ok |-> FALSE, why |-> "M-state: window offsets / results differ from every modelled variant of ReadChunk", dev |-> ""]
